@@ -183,6 +183,42 @@ def r2_scaling(idx, r):
               msg="the old symmetry factor is read before the move and the rescaling happens after it")
 
 
+GC = "armi.reactor.converters.geometryConverters"
+
+
+def r3_complete_scaling_list(idx, r):
+    """Every volume-integrated total triples when the core is grown. The list of parameters to scale is produced by
+    _generateListOfParamsToScale as (all volume-integrated names, the multigroup-flux names among them); its first
+    element is what the third-to-full changer triples, so it must be the whole list: narrowed only by the caller's
+    subset, never by the flux list."""
+    f = idx.func(GC + "._generateListOfParamsToScale")
+    if f is None:
+        raise AnchorMissing("_generateListOfParamsToScale")
+    rets = [x for x in walk_local(f.node) if isinstance(x, ast.Return)]
+    if len(rets) != 1 or not isinstance(rets[0].value, ast.Tuple) or len(rets[0].value.elts) != 2 or not all(isinstance(e, ast.Name) for e in rets[0].value.elts):
+        raise AnalysisError("_generateListOfParamsToScale: expected `return (volumeIntegrated, flux)` of two locals")
+    first, second = (e.id for e in rets[0].value.elts)
+    defs = [st for st in walk_local(f.node) if isinstance(st, ast.Assign) and any(isinstance(t, ast.Name) and t.id == first for t in st.targets)]
+    src = [d for d in defs if "VOLUME_INTEGRATED" in norm(d.value)]
+    r.require(bool(src), "list:from-volume-integrated-definitions", f, msg="the list must start from paramDefs.atLocation(VOLUME_INTEGRATED)")
+    for d in defs:
+        names = {n.id for n in ast.walk(d.value) if isinstance(n, ast.Name)}
+        r.require(second not in names, f"list:not-narrowed:{norm(d)[:50]}", f, node=d,
+                  msg=f"`{norm(d)[:80]}` removes or selects by `{second}`: the multigroup fluxes then leave the list that the third-to-full-core changer triples, "
+                      "so their full-core totals are not three times the third-core totals")
+    # the symmetry change itself drops every cached symmetry-dependent value in the core
+    from .c02 import r6_unconditional_invalidation
+    r6_unconditional_invalidation(idx, r, only={"armi.reactor.cores.Core.symmetry", "armi.reactor.assemblies.Assembly.moveTo"})
+    # copies rotated into place add their rotation to the orientation they were copied with
+    rt = idx.method("armi.reactor.blocks.HexBlock", "rotate")
+    if rt is None:
+        raise AnchorMissing("HexBlock.rotate")
+    ori = [n for n in walk_local(rt.node) if isinstance(n, (ast.AugAssign, ast.Assign)) and "orientation" in norm(n.targets[0] if isinstance(n, ast.Assign) else n.target)]
+    sets = [c for c in iter_calls(rt.node) if call_attr(c) == "setRotationNum"]
+    r.require(len(ori) == 1 and isinstance(ori[0], ast.AugAssign) and isinstance(ori[0].op, ast.Add) and not sets, "rotate:orientation-accumulates", rt, node=(ori[0] if ori else (sets[0] if sets else rt.node)),
+              msg="rotating a block must ADD the rotation to its orientation; setting it replaces the source's orientation, so a copy of an already rotated assembly ends at 120/240 instead of source+120/240")
+
+
 def run(idx, chk):
     chk.explanation = (
         "C13: in ThirdCoreHexToFullCoreChanger.convert every symmetric location gets exactly one deep-copied, uniquely named, rotated and recorded "
@@ -196,3 +232,5 @@ def run(idx, chk):
                  lambda r: r1_pairing(idx, r), floor=20, necessary="each new assembly is an independent copy rotated into place; undoing returns the core to its previous state")
     chk.run_rule("R13.2", "scale and unscale are inverse (x3 / /3) on the same parameters under the same centre condition; list computed after the geometry changed; moves rescale by old/new symmetry factor",
                  lambda r: r2_scaling(idx, r), floor=12, necessary="the centre assembly counts once; restore returns the parameters")
+    chk.run_rule("R13.3", "the scaled list is the complete volume-integrated list; symmetry changes and moves drop caches unconditionally; rotation adds to the orientation", lambda r: r3_complete_scaling_list(idx, r), floor=5,
+                 necessary="'volume and every volume-integrated total are three times the third-core values'; 'rotated into place'")
